@@ -572,8 +572,12 @@ impl ArchiveIndex {
                     footer.offset_bytes,
                 ) {
                     Ok(entry) => {
-                        // Skip zero entries (padding)
-                        if entry.is_zero() {
+                        // A zero record is end-of-block padding, except as the very
+                        // first record of the index: entries are sorted, so that is
+                        // the only place a real all-zero record (all-zero key with
+                        // size 0 at offset 0) can be, and padding can never be there
+                        // (chunks only exist when element_count > 0).
+                        if entry.is_zero() && !(chunk_idx == 0 && pos == 0) {
                             break;
                         }
                         entries.push(entry);
